@@ -414,6 +414,30 @@ fn search_props(prop: &str, tier: &str, seed: u64, threads: usize, out: &str) {
             l
         });
         extra.insert("deep".into(), format!("{ndeep} closed chains of 1100-1600 nodes, every fourth of 4300-4900"));
+        // node values with interior mutability that the closure changes while nodes are queued (the Dijkstra idiom):
+        // judged by the statement alone (C07: exactly once for every edge leaving a reachable node), not modelled
+        if prop == "C07" {
+            exec::new_section();
+            let npm = if quick { 400 } else { 6000 };
+            let fls = flavours.clone();
+            spread_with(&mut ctxs, npm, |i, ctx| {
+                let fl = fls[i % fls.len()];
+                let lines = vec![format!("case {fl} pm{i}"), format!("pfsmut {} min", 3 * i + 1), format!("pfsmut {} max", 3 * i + 2), format!("pfsmut {} min", 3 * i + 3)];
+                let mut c = Ctx::default();
+                c.oracles = vec!["c07".into()];
+                exec::run_program(&lines, &mut c);
+                ctx.side_prog.extend(lines.iter().cloned());
+                if let Some(f) = c.fails.first() {
+                    ctx.fail(&lines[0], f.line, "c07", f.msg.clone());
+                    if let Some(f) = ctx.fails.last_mut() {
+                        f.side = true;
+                    }
+                }
+                ctx.count("mutable_priorities");
+                ctx.count("cases");
+            });
+            extra.insert("mutable_priorities".into(), format!("{npm} cases x 3 priority-first traversals over node values the closure changes while nodes are queued (not modelled)"));
+        }
         // a long-lived thread: the same long successful search again and again in one case on one thread (`hop=0`);
         // whatever a search leaves behind on its thread adds up
         if ["C04", "C05", "C06"].contains(&prop) {
@@ -860,7 +884,21 @@ fn canon_c15(req: &str, out: &str, relaxed_dump: bool) -> String {
             comps.join(";")
         }
         "g.to_dot" | "g.to_dot_attr" => {
-            let mut v: Vec<&str> = out.split('|').collect();
+            // statements as a set; with the stateful callbacks (table 3) the number a statement carries follows the
+            // container's iteration order, so only the multiset of numbers per kind of statement is compared
+            let stateful = head == "g.to_dot_attr" && req.split(' ').nth(2) == Some("3");
+            let mut v: Vec<String> = out.split('|').map(|x| x.to_string()).collect();
+            if stateful {
+                let mut nums: Vec<String> = vec![];
+                for x in v.iter_mut() {
+                    if let Some((h, a)) = x.clone().rsplit_once(" [") {
+                        nums.push(format!("{}{}", if h.contains("->") { "e" } else { "n" }, a));
+                        *x = h.to_string();
+                    }
+                }
+                nums.sort();
+                v.extend(nums);
+            }
             v.sort();
             v.join("|")
         }
@@ -1051,6 +1089,34 @@ fn c15_props(tier: &str, seed: u64, threads: usize, out: &str) {
         ctx.count("cases");
     });
     extra.insert("ownership".into(), format!("{nown} ownership histories run on both members of a pair (differential only)"));
+    // priority-first traversals over node values that the closure changes while nodes are queued
+    exec::new_section();
+    let npm = if quick { 300 } else { 6000 };
+    spread_with(&mut ctxs, npm, |i, ctx| {
+        let (a, b) = if i % 2 == 0 { ("di", "sdi") } else { ("un", "sun") };
+        let lines = vec![format!("case {a} pm{i}"), format!("pfsmut {} min", 3 * i + 1), format!("pfsmut {} max", 3 * i + 2), format!("pfsmut {} min", 3 * i + 3)];
+        let mut lines_b = lines.clone();
+        lines_b[0] = format!("case {b} pm{i}");
+        let mut ca = Ctx::default();
+        let mut cb = Ctx::default();
+        exec::run_program(&lines, &mut ca);
+        exec::run_program(&lines_b, &mut cb);
+        ctx.side_prog.extend(lines.iter().cloned());
+        for j in 0..ca.outs.len().max(cb.outs.len()) {
+            let (x, y) = (ca.outs.get(j).cloned().unwrap_or("<missing>".into()), cb.outs.get(j).cloned().unwrap_or("<missing>".into()));
+            if x != y {
+                let req = ca.prog.get(j).cloned().unwrap_or_default();
+                ctx.fail(&lines[0], j.saturating_sub(1), "c15", format!("(node values changed by the closure) `{}`: {a} gives `{}` but {b} gives `{}`", req, x, y));
+                if let Some(f) = ctx.fails.last_mut() {
+                    f.side = true;
+                }
+                break;
+            }
+        }
+        ctx.count("pairs.mutable_priorities");
+        ctx.count("cases");
+    });
+    extra.insert("mutable_priorities".into(), format!("{npm} x 3 priority-first traversals over node values the closure changes, run on both members of a pair"));
     write_outputs(out, &ctxs, extra);
 }
 
